@@ -339,6 +339,7 @@ def plan(tier, seed):
     units = [{'idx': i, 'tier': tier} for i in range(len(cases))]
     n_cert = len(list(cert_cases(tier)))
     units += [{'certs': [lo, min(n_cert, lo + 100)], 'tier': tier} for lo in range(0, n_cert, 100)]
+    units.append({'union': True, 'tier': tier})
     return {
         'units': units,
         'rule': 'base packet = (kind, name shape, payload size, signer, ECDSA nonce index); for each base packet every single-byte '
@@ -351,6 +352,46 @@ def plan(tier, seed):
                         'mutants the reference reader cannot parse carry no claim (counted as no_claim)',
                         'cryptographic strength is not examined: only single-edit tampering'],
     }
+
+
+def union_cases():
+    for kind in ('I', 'D'):
+        for signer in ('digest', 'hmac', 'ed'):
+            for shape in ('single', 'true-first', 'true-last', 'twice', 'false-last'):
+                yield {'k': kind, 'name': ['a'], 'plen': 5, 'signer': signer, 'it': 0, 'shape': shape}
+
+
+def run_union(case):
+    """union_checker(...) is one verifier object used for many packets: genuine, tampered, genuine, tampered, ..."""
+    from ndn.security import union_checker
+    viol = []
+    kind, spec = case['k'], case['signer']
+    wire, rec = build(case)
+    bad_wire = wire[:-2] + bytes([wire[-2] ^ 0x10]) + wire[-1:]
+    ver = verifier_for(spec)
+
+    async def yes(name, sig):
+        return True
+
+    async def no(name, sig):
+        return False
+    parts = {'single': (ver,), 'true-first': (yes, ver), 'true-last': (ver, yes), 'twice': (ver, ver), 'false-last': (ver, no)}[case['shape']]
+    u = union_checker(*parts)
+    got = []
+    for i, w in enumerate((wire, bad_wire, wire, bad_wire, bad_wire, wire)):
+        try:
+            name, sig = lib_parse(kind, w)
+            got.append(bool(run_coro(u(name, sig))))
+        except Exception as e:  # noqa
+            viol.append((f'C02|union|{kind}|{spec}|raises:{type(e).__name__}', f'call {i}: {e!r}; case {case}'))
+            return viol
+    want = [case['shape'] != 'false-last', False, case['shape'] != 'false-last', False, False, case['shape'] != 'false-last']
+    if got != want:
+        first = next(i for i in range(6) if got[i] != want[i])
+        viol.append((f"C02|union|{kind}|{spec}|{'forgery-accepted' if got[first] else 'genuine-rejected'}|call={first}",
+                     f'combined verifier {case["shape"]} over genuine/tampered/genuine/tampered/tampered/genuine packets answered {got}, '
+                     f'expected {want}; case {case}'))
+    return viol
 
 
 def unit_certs(arg):
@@ -371,6 +412,22 @@ def unit_certs(arg):
 
 
 def unit(arg):
+    if 'union' in arg:
+        acc = Acc()
+        acc.state_hashes = None
+        with owned_env(clock=FixedClock(), seed=2):
+            for case in union_cases():
+                viol = run_union(case)
+                acc.evaluations += 1
+                acc.state_count += 1
+                acc.transitions += 6
+                acc.nontrivial += 1
+                acc.outcome(f"union|{case['shape']}|{'ok' if not viol else 'viol'}")
+                acc.observe([case, [v[0] for v in viol]])
+                for sig, what in viol:
+                    acc.violation(sig, what, {'union': case})
+        acc.sample({'union_shapes': ['single', 'true-first', 'true-last', 'twice', 'false-last'], 'calls': 'genuine, tampered, genuine, tampered, tampered, genuine'})
+        return acc
     if 'certs' in arg:
         return unit_certs(arg)
     acc = Acc()
@@ -391,6 +448,9 @@ def unit(arg):
 
 
 def replay(case):
+    if 'union' in case:
+        with owned_env(clock=FixedClock(), seed=2):
+            return [{'sig': s, 'what': w} for s, w in run_union(case['union'])]
     if 'cert' in case:
         viol, _ = check_cover(case['cert'])
         return [{'sig': s, 'what': w} for s, w in viol]
